@@ -22,9 +22,6 @@ func boundOK(name, s string) bool {
 	if strings.ContainsAny(s, " ,|\t\n\r") {
 		return false
 	}
-	if strings.Contains(strings.ToLower(s), "and") {
-		return false
-	}
 	return true
 }
 
@@ -50,6 +47,24 @@ func signOf(c int) int {
 	return 0
 }
 
+var c02KwCache []string
+
+// c02KeywordVersions: version-like strings whose identifiers contain words used by some range
+// syntax, alone and embedded in longer words, under every common separator.
+func c02KeywordVersions() []string {
+	if c02KwCache != nil {
+		return c02KwCache
+	}
+	words := []string{"and", "or", "AND", "OR", "And", "candidate", "stand", "android", "oracle", "for", "xor", "nor", "not", "to", "in", "x", "X", "v", "vx", "any", "latest", "stable", "dev", "as", "is"}
+	tmpl := []string{"1.0.0-%s", "1.0.0-%s.1", "1.0.0-1.%s", "1.0-%s", "1.0.%s", "1.0%s", "1.0_%s", "1.0~%s", "1.0+%s", "1.0.0+%s", "1.0.%s-1", "1:1.0%s-1", "1.0.0-rc.%s", "1.0%s1"}
+	for _, t := range tmpl {
+		for _, w := range words {
+			c02KwCache = append(c02KwCache, fmt.Sprintf(t, w))
+		}
+	}
+	return c02KwCache
+}
+
 func c02Unit(name string, lvl int) core.Unit {
 	return core.Unit{Name: name, Weight: 10, Run: func(r *core.Result) {
 		e := eco.ByName(name)
@@ -58,7 +73,16 @@ func c02Unit(name string, lvl int) core.Unit {
 			r.Notef("%s: no comparator syntax (brackets only, see C05)", name)
 			return
 		}
-		u := univ.Versions(e, lvl)
+		u0 := univ.Versions(e, lvl)
+		u := &univ.Universe{Eco: e, Strs: append([]string{}, u0.Strs...), Vers: append([]eco.Ver{}, u0.Vers...)}
+		// versions whose text embeds a word of some range syntax ("and", "or", "x", "to", "v" ...):
+		// a keyword search on the raw range text must not fire inside a bound
+		kwFirst := len(u.Strs)
+		for _, s := range c02KeywordVersions() {
+			if v, err := eco.SafeParse(e, s); err == nil {
+				u.Strs, u.Vers = append(u.Strs, s), append(u.Vers, v)
+			}
+		}
 		// bounds: all admissible members of U_E, thinned by stride; always keep the members that
 		// contain a letter not seen so far (reaches letter-triggered routing such as npm's 'x').
 		var adm []int
@@ -78,6 +102,9 @@ func c02Unit(name string, lvl int) core.Unit {
 		seenLetter := map[rune]bool{}
 		seenTok := map[string]bool{}
 		for _, i := range adm {
+			if i >= kwFirst {
+				boundSet[i] = true
+			}
 			// members with a component of 5 or more digits (width- and magnitude-dependent shortcuts)
 			if bigComponent.MatchString(u.Strs[i]) && len(u.Strs[i]) < 24 {
 				boundSet[i] = true
@@ -354,7 +381,7 @@ func init() {
 				"distinct_nontrivial":           r.Counters["true_results"],
 			}
 		},
-		Rule:        "per ecosystem: every comparator of the documented syntax table x every bound of a stride sub-universe of U_E (plus one bound per distinct letter and every member with a component of 5 or more digits) x every probe; every comparator pair x AND separator x bound pair x probe; every comparator pair x OR separator; (x AND y) OR z. Expected value computed from the real Compare. states = distinct range strings built; transitions = range parses + Contains calls; distinct_nontrivial = evaluations whose result is true (range and probe interact non-vacuously).",
+		Rule:        "per ecosystem: every comparator of the documented syntax table x every bound of a stride sub-universe of U_E (plus one bound per distinct letter, every member with a component of 5 or more digits, and every accepted version whose identifiers contain a word of some range syntax: and/or/x/to/v... alone or embedded, under 14 separator templates) x every probe; every comparator pair x AND separator x bound pair x probe; every comparator pair x OR separator; (x AND y) OR z. Expected value computed from the real Compare. states = distinct range strings built; transitions = range parses + Contains calls; distinct_nontrivial = evaluations whose result is true (range and probe interact non-vacuously).",
 		Assumptions: []string{"bounds beginning with a comparator character or containing separator characters are out of scope (property text)", "syntax table (comparators, separators) is written from the documentation; maven has no comparator syntax"},
 	})
 }
